@@ -219,7 +219,70 @@ class PairResult:
         return f"{self.cls.qual} {self.writer.name}<->{self.reader.name}"
 
 
-def analyse_pair(prog: Program, cls: ClassInfo, writer: FuncInfo, pcall: ast.Call, reader: FuncInfo, ucall: ast.Call, utgt: Optional[ast.AST], fmt: str) -> PairResult:
+def writer_layouts(prog: Program, cls: ClassInfo, fn: FuncInfo, depth: int = 0) -> List[Tuple[str, ast.Call, FuncInfo]]:
+    """(format, pack call, owning function) in emission order, following super().<method>() into the base class."""
+    out: List[Tuple[int, int, Any]] = []
+    for c in pack_calls(fn):
+        fmt = fold_fmt(prog, fn, cls, c.args[0])
+        if isinstance(fmt, str):
+            out.append((c.lineno, c.col_offset, (fmt, c, fn)))
+    if depth < 3:
+        for c in A.calls_in(fn.node):
+            if isinstance(c.func, ast.Attribute) and isinstance(c.func.value, ast.Call) and norm(c.func.value.func) == "super" and fn.cls is not None:
+                m = prog.mro(cls)
+                idx = m.index(fn.cls) + 1 if fn.cls in m else 1
+                for k in m[idx:]:
+                    sf = k.method(c.func.attr)
+                    if sf is not None:
+                        for j, item in enumerate(writer_layouts(prog, cls, sf, depth + 1)):
+                            out.append((c.lineno, c.col_offset + j * 0.001, item))
+                        break
+    out.sort(key=lambda x: (x[0], x[1]))
+    return [x[2] for x in out]
+
+
+def reader_layouts(prog: Program, cls: ClassInfo, fn: FuncInfo) -> List[Tuple[str, ast.Call, Optional[ast.AST], FuncInfo, Optional[List["Side"]]]]:
+    """(format, unpack call, target tuple, owning function, precomputed sides or None) in source order. A helper classmethod that
+    unpacks and returns a sub-tuple which the caller re-binds positionally is followed (sides are computed in the caller)."""
+    out: List[Tuple[int, int, Any]] = []
+    for c, tgt, _st in unpack_sites(fn):
+        fmt = fold_fmt(prog, fn, cls, c.args[0])
+        if isinstance(fmt, str):
+            out.append((c.lineno, c.col_offset, (fmt, c, tgt, fn, None)))
+    for c in A.calls_in(fn.node):
+        f = c.func
+        if isinstance(f, ast.Attribute) and isinstance(f.value, ast.Name) and f.value.id in ("cls", "self"):
+            h = prog.find_method(cls, f.attr)
+            if h is None or h.node is fn.node:
+                continue
+            sites = unpack_sites(h)
+            rets = A.returns_in(h.node)
+            st = A.enclosing_stmt(c)
+            if len(sites) != 1 or len(rets) != 1 or not isinstance(rets[0].value, ast.Tuple) or not isinstance(st, ast.Assign) or st.value is not c:
+                continue
+            uc, utgt, _ = sites[0]
+            fmt = fold_fmt(prog, h, cls, uc.args[0])
+            if not isinstance(fmt, str) or not isinstance(utgt, (ast.Tuple, ast.List)):
+                continue
+            ret_names = [norm(x) for x in rets[0].value.elts]
+            caller_t = st.targets[0]
+            caller_names = list(caller_t.elts) if isinstance(caller_t, (ast.Tuple, ast.List)) else [caller_t]
+            if len(caller_names) != len(ret_names):
+                continue
+            sides: List[Side] = []
+            for t in utgt.elts:
+                tn = norm(t)
+                if tn in ret_names:
+                    sides.append(reader_side(prog, fn, cls, caller_names[ret_names.index(tn)]))
+                else:
+                    sides.append(reader_side(prog, h, cls, t))
+            out.append((c.lineno, c.col_offset, (fmt, uc, utgt, h, sides)))
+    out.sort(key=lambda x: (x[0], x[1]))
+    return [x[2] for x in out]
+
+
+def analyse_pair(prog: Program, cls: ClassInfo, writer: FuncInfo, pcall: ast.Call, reader: FuncInfo, ucall: ast.Call, utgt: Optional[ast.AST], fmt: str,
+                 rsides: Optional[List["Side"]] = None) -> PairResult:
     res = PairResult(cls, writer, reader, fmt)
     items = struct_items(fmt)
     if items is None:
@@ -244,7 +307,7 @@ def analyse_pair(prog: Program, cls: ClassInfo, writer: FuncInfo, pcall: ast.Cal
     if len(tg) != len(vals):
         res.problems.append(("arity", f"unpack binds {len(tg)} targets for {len(vals)} format items ({fmt})"))
         return res
-    res.r = [reader_side(prog, reader, cls, t) for t in tg]
+    res.r = rsides if rsides is not None else [reader_side(prog, reader, cls, t) for t in tg]
     W, R = res.w, res.r
     n = len(vals)
     wname = [(_canon(s.name) if s.kind in ("attr", "len") else None) for s in W]
